@@ -725,6 +725,38 @@ def inline_body(helper, call, is_method, kind, target, caller_locals, base_line=
   return out
 
 
+def _first_evaluated(root, target):
+  """Is `target` on the spine of sub-expressions that root evaluates first, unconditionally?"""
+  n = root
+  while True:
+    if n is target:
+      return True
+    if isinstance(n, ast.UnaryOp):
+      n = n.operand
+    elif isinstance(n, ast.BoolOp):
+      n = n.values[0]
+    elif isinstance(n, ast.Compare):
+      n = n.left
+    elif isinstance(n, ast.BinOp):
+      n = n.left
+    elif isinstance(n, ast.IfExp):
+      n = n.test
+    elif isinstance(n, ast.Attribute):
+      n = n.value
+    elif isinstance(n, ast.Subscript):
+      n = n.value
+    elif isinstance(n, ast.Call):
+      if isinstance(n.func, (ast.Name,)) or (isinstance(n.func, ast.Attribute) and _is_pure(n.func)):
+        if n.args:
+          n = n.args[0]
+        else:
+          return False
+      else:
+        n = n.func
+    else:
+      return False
+
+
 def _hoistable(root, target):
   """Is `target` evaluated before any other impure sub-expression of root (other than the
   calls that contain it)?"""
@@ -761,8 +793,9 @@ def inline_new_helpers(tree, rel, inventory, stats):
   functions and methods of the classes of this module)."""
   known = set(inventory.get(rel, []))
 
-  def process_scope(defs, is_method, prefix, cls_name):
-    # defs: list of FunctionDef in this class/module scope
+  def process_scope(defs, is_method, prefix, cls_name, callers=None):
+    # defs: list of FunctionDef in this class/module scope; callers: functions that may call them (default: defs)
+    callers = defs if callers is None else callers
     names = dict((d.name, d) for d in defs)
     new = {}
     for d in defs:
@@ -777,7 +810,7 @@ def inline_new_helpers(tree, rel, inventory, stats):
     # every reference must be a direct call: self.h(...), Cls.h(...), cls.h(...) or h(...)
     refs = dict((k, []) for k in new)
     bad = set()
-    for d in defs:
+    for d in callers:
       for n in ast.walk(d):
         if isinstance(n, ast.Attribute) and n.attr in new and isinstance(n.value, ast.Name) and n.value.id in ('self', 'cls', cls_name):
           refs[n.attr].append((d, n))
@@ -794,7 +827,7 @@ def inline_new_helpers(tree, rel, inventory, stats):
         new.pop(h)
     for _round in range(3):
       changed = False
-      for d in defs:
+      for d in callers:
         if _inline_in(d, new, is_method, cls_name, stats):
           changed = True
       if not changed:
@@ -804,7 +837,7 @@ def inline_new_helpers(tree, rel, inventory, stats):
     dead = []
     for h, hd in new.items():
       still = False
-      for d in defs:
+      for d in callers:
         if d is hd:
           continue
         for n in ast.walk(d):
@@ -815,7 +848,8 @@ def inline_new_helpers(tree, rel, inventory, stats):
     return dead
 
   mod_defs = [s for s in tree.body if isinstance(s, (ast.FunctionDef, ast.AsyncFunctionDef))]
-  dead = process_scope(mod_defs, False, '', None) or []
+  all_methods = [m for c in ast.walk(tree) if isinstance(c, ast.ClassDef) for m in c.body if isinstance(m, (ast.FunctionDef, ast.AsyncFunctionDef))]
+  dead = process_scope(mod_defs, False, '', None, callers=mod_defs + all_methods) or []
   tree.body = [s for s in tree.body if not any(s is d for d in dead)]
   for c in [s for s in ast.walk(tree) if isinstance(s, ast.ClassDef)]:
     defs = [s for s in c.body if isinstance(s, (ast.FunctionDef, ast.AsyncFunctionDef))]
@@ -878,6 +912,25 @@ def _inline_in(d, new, is_method, cls_name, stats):
               out.extend(pre)
               out.append(st)
               continue
+      if rep is None and isinstance(st, ast.If):
+        # a multi-statement helper called in the test of an if: hoist it when it is the first thing the test evaluates
+        inner = [n for n in ast.walk(st.test) if _call_to(n, new, is_method, cls_name) is not None
+                 and _expr_helper(_call_to(n, new, is_method, cls_name)) is None]
+        if len(inner) == 1 and _first_evaluated(st.test, inner[0]):
+          h = _call_to(inner[0], new, is_method, cls_name)
+          if h is not d:
+            tmp = '__hoist_%s' % h.name.strip('_')
+            pre = inline_body(h, inner[0], is_method and not _is_static(h), 'assign', [ast.Name(id=tmp, ctx=ast.Store())], caller_locals, st.lineno)
+            if pre is not None:
+              if inner[0] is st.test:
+                st.test = ast.Name(id=tmp, ctx=ast.Load())
+              else:
+                _replace_node(st.test, inner[0], ast.Name(id=tmp, ctx=ast.Load()))
+              ast.fix_missing_locations(st)
+              changed[0] = True
+              stats['inlined'] = stats.get('inlined', 0) + 1
+              out.extend(pre)
+              # fall through: the if statement itself is still processed (its blocks) below
       if rep is not None:
         changed[0] = True
         stats['inlined'] = stats.get('inlined', 0) + 1
